@@ -201,8 +201,24 @@ DEFAULT_WEIGHTS = {"add": 18, "bind": 26, "put": 16, "data": 16, "next": 5, "kid
                    "keys": 3, "readd": 4, "nextadd": 4}
 
 
+def apply_op(t, op):
+    """feeds one op line (handle ignored) to a tracker"""
+    p = op.split()
+    k = p[0]
+    if k == "ADD":
+        t.add(int(p[2]))
+    elif k == "BIND":
+        t.bind(int(p[2]), int(p[3]), p[4])
+    elif k == "PUT":
+        t.put(int(p[2]))
+    elif k == "DATA":
+        t.data(int(p[2]))
+    elif k == "NEXT":
+        t.next_id()
+
+
 def core_history(rng, hid, n=None, cap=None, length=None, weights=None, idpool=None,
-                 observers=True, labels=None):
+                 observers=True, labels=None, prefix=None, base=None):
     """add/bind/put/data/next_id + observers on one graph, inside the limits
     with high probability (the history is cut at the first call that the
     tracker judges outside the limits)"""
@@ -212,11 +228,15 @@ def core_history(rng, hid, n=None, cap=None, length=None, weights=None, idpool=N
     w = dict(DEFAULT_WEIGHTS)
     w.update(weights or {})
     pool_size = idpool or min(cap, rng.pick([3, 4, 5, 6, 8, 12, 20]))
-    base = rng.below(cap - pool_size + 1)
-    ids = list(range(base, base + pool_size))
+    if base is None:
+        base = rng.below(cap - pool_size + 1)
+    ids = list(range(base, min(cap, base + pool_size)))
     labels = labels or LABEL_POOL
     t = Tracker(n, cap)
     ops = ["NEW g %d" % cap]
+    for op in (prefix or []):
+        ops.append(op)
+        apply_op(t, op)
     pairs = [(k, v) for k, v in w.items() if v > 0]
     for _ in range(length):
         k = rng.weighted(pairs)
@@ -294,8 +314,159 @@ def core_history(rng, hid, n=None, cap=None, length=None, weights=None, idpool=N
     for v in sorted(t.present)[:6]:
         ops.append("KIDS g %d" % v)
     meta = {"collections": t.collections, "max_groups": t.max_groups,
-            "max_group_size": t.max_group_size, "readds": t.readds, "cap": cap, "n": n}
+            "max_group_size": t.max_group_size, "readds": t.readds, "cap": cap, "n": n,
+            "tracker": t}
     return History(hid, n, ops, meta)
+
+
+# ------------------------------------------------------------------ adversarial orders
+
+ADVERSARY_PREFIXES = [
+    # put before bind, then read
+    ["ADD g 1", "ADD g 2", "PUT g 2 V0a0b", "BIND g 1 2 A0"],
+    # overwrite of an unread datum inside a group
+    ["ADD g 1", "ADD g 2", "BIND g 1 2 A0", "PUT g 2 V0a", "PUT g 2 B0b00000000000000:1"],
+    # re-add of a grouped vertex, then bind it elsewhere
+    ["ADD g 1", "ADD g 2", "ADD g 3", "BIND g 1 2 A0", "ADD g 2", "BIND g 3 2 A0"],
+    # read of an ungrouped vertex next to vertex 0
+    ["ADD g 0", "ADD g 3", "PUT g 3 V01", "DATA g 3"],
+    # both endpoints hold unread data when the group is formed
+    ["ADD g 1", "ADD g 2", "PUT g 1 V01", "PUT g 2 V02", "BIND g 1 2 A0"],
+    # collected id re-added and re-bound
+    ["ADD g 1", "ADD g 2", "BIND g 1 2 A0", "PUT g 2 V01", "DATA g 2", "ADD g 2", "ADD g 1"],
+    # stored vertex joins an existing group from either side
+    ["ADD g 1", "ADD g 2", "ADD g 3", "BIND g 1 2 A0", "PUT g 3 V07", "BIND g 3 1 A1"],
+    ["ADD g 1", "ADD g 2", "ADD g 3", "BIND g 1 2 A0", "PUT g 3 V07", "BIND g 2 3 A1"],
+    # two groups, bind across them
+    ["ADD g 0", "ADD g 1", "ADD g 2", "ADD g 3", "BIND g 0 1 A0", "BIND g 2 3 A0", "BIND g 1 2 A1", "PUT g 3 V05"],
+    # read twice, then put again
+    ["ADD g 1", "ADD g 2", "BIND g 1 2 A0", "PUT g 1 V01", "PUT g 2 V02", "DATA g 1", "DATA g 1", "PUT g 1 V03"],
+]
+
+
+def adversary_history(rng, hid):
+    n = rng.pick([2, 2, 3, 4, 16])
+    cap = rng.pick([4, 5, 6, 8, 16])
+    pre = list(rng.pick(ADVERSARY_PREFIXES))
+    w = {"add": 10, "readd": 8, "bind": 22, "put": 22, "data": 26, "next": 3, "nextadd": 4,
+         "kid": 2, "kids": 2, "keys": 4}
+    return core_history(rng, hid, n=n, cap=cap, length=rng.pick([6, 12, 25, 40]), weights=w,
+                        idpool=min(cap, rng.pick([3, 4, 5])), base=0, prefix=pre)
+
+
+def boundary_history(rng, hid):
+    kind = rng.pick(["labels", "members", "groups", "lastid"])
+    n = rng.pick([1, 2, 3, 4, 8, 16])
+    if kind == "labels":
+        cap = rng.pick([4, 8, 16])
+        pre = fill_prefix(rng, "labels", n, cap)[1:]
+        pool, base = min(cap, 4), 0
+    elif kind == "members":
+        cap = rng.pick([17, 20, 32])
+        pre = fill_prefix(rng, "members", n, cap)[1:]
+        pool, base = min(cap, 18), 0
+    elif kind == "groups":
+        cap = rng.pick([29, 32, 40])
+        pre = fill_prefix(rng, "groups", n, cap)[1:]
+        pool, base = min(cap, 30), 0
+    else:
+        cap = rng.pick([3, 4, 6])
+        pre = ["ADD g %d" % v for v in range(cap - 1)]
+        pool, base = cap, 0
+    w = {"add": 8, "readd": 4, "bind": 30, "put": 18, "data": 22, "next": 6, "nextadd": 6,
+         "kid": 2, "kids": 2, "keys": 3}
+    return core_history(rng, hid, n=n, cap=cap, length=rng.pick([10, 30, 60]), weights=w,
+                        idpool=pool, base=base, prefix=pre)
+
+
+def soak_history(rng, hid, cycles, bystanders=None):
+    """hundreds of create / fill / read / collect cycles over a rotating id
+    pool with 0..13 other groups kept alive meanwhile"""
+    k = rng.below(14) if bystanders is None else bystanders
+    n = rng.pick([1, 2, 4, 16])
+    pool = rng.pick([3, 4, 6, 9])
+    cap = 2 * k + pool + rng.below(3)
+    ops = ["NEW g %d" % cap]
+    for b in range(k):
+        ops += ["ADD g %d" % (2 * b), "ADD g %d" % (2 * b + 1),
+                "BIND g %d %d %s" % (2 * b, 2 * b + 1, lab_alpha(0))]
+        if rng.chance(1, 2):
+            ops.append("PUT g %d %s" % (2 * b + rng.below(2), gen_data(rng)))
+    base = 2 * k
+    for c in range(cycles):
+        size = 2 if n == 1 or rng.chance(2, 3) else 3
+        size = min(size, pool)
+        start = rng.below(pool)
+        vs = [base + (start + j) % pool for j in range(size)]
+        for v in vs:
+            ops.append("ADD g %d" % v)
+        style = rng.below(4)
+        if style == 0:      # put before bind
+            ops.append("PUT g %d %s" % (vs[-1], gen_data(rng)))
+        ops.append("BIND g %d %d %s" % (vs[0], vs[1], lab_alpha(0)))
+        if size == 3:
+            ops.append("BIND g %d %d %s" % (vs[0], vs[2], lab_alpha(1)) if n > 1 else
+                       "BIND g %d %d %s" % (vs[1], vs[2], lab_alpha(0)))
+        if style != 0:
+            ops.append("PUT g %d %s" % (vs[-1], gen_data(rng)))
+        if style == 2:      # overwrite
+            ops.append("PUT g %d %s" % (vs[-1], gen_data(rng)))
+        if style == 3:      # a second datum elsewhere, read first
+            ops.append("PUT g %d %s" % (vs[0], gen_data(rng)))
+            ops.append("DATA g %d" % vs[0])
+        ops.append("DATA g %d" % vs[-1])
+        if rng.chance(1, 8):
+            ops.append("KEYS g")
+        if rng.chance(1, 16):
+            ops.append("DATA g %d" % vs[-1]) if False else None
+    ops = [o for o in ops if o]
+    ops.append("KEYS g")
+    return History(hid, n, ops, {"cycles": cycles, "bystanders": k, "cap": cap, "n": n})
+
+
+def clone_history(rng, hid):
+    """prefix on g; CLONE g h; the same calls on both copies; then calls on
+    one copy only while the other is observed"""
+    h0 = core_history(rng, hid, length=rng.pick([8, 15, 30]), observers=False,
+                      weights={"put": 20, "data": 10, "next": 8, "nextadd": 6})
+    t = h0.meta["tracker"]
+    ops = [o for o in h0.ops if not o.startswith(("KEYS", "KIDS", "KID"))]
+    ops.append("CLONE g h")
+    clone_at = len(ops) - 1
+    cont = core_history(rng.fork(), "x", n=h0.n, cap=h0.meta["cap"], length=rng.pick([6, 12, 25]),
+                        observers=False, prefix=ops[1:clone_at],
+                        weights={"put": 18, "data": 22, "next": 8, "nextadd": 6})
+    tail = cont.ops[clone_at:]
+    pairs = []
+    for o in tail:
+        p = o.split()
+        if p[0] in ("KEYS",):
+            continue
+        ops.append(o)
+        ops.append(" ".join([p[0], "h"] + p[2:]))
+        pairs.append((len(ops) - 2, len(ops) - 1))
+    # independent mutation: continue on g only, watch h; then on h only, watch g
+    watch = []
+    more = core_history(rng.fork(), "y", n=h0.n, cap=h0.meta["cap"], length=rng.pick([5, 10]),
+                        observers=False, prefix=cont.ops[1:], weights={"put": 20, "data": 25, "add": 20})
+    for o in more.ops[len(cont.ops):]:
+        p = o.split()
+        if p[0] == "KEYS":
+            continue
+        ops.append(o)
+        ops.append("SNAP h")
+        watch.append(len(ops) - 1)
+    more2 = core_history(rng.fork(), "z", n=h0.n, cap=h0.meta["cap"], length=rng.pick([5, 10]),
+                         observers=False, prefix=cont.ops[1:], weights={"put": 20, "data": 25, "add": 20})
+    for o in more2.ops[len(cont.ops):]:
+        p = o.split()
+        if p[0] == "KEYS":
+            continue
+        ops.append(" ".join([p[0], "h"] + p[2:]))
+        ops.append("SNAP g")
+        watch.append(len(ops) - 1)
+    return History(hid, h0.n, ops, {"clone_at": clone_at, "pairs": pairs, "watch": watch,
+                                    "cap": h0.meta["cap"], "n": h0.n})
 
 
 def fill_prefix(rng, kind, n, cap):
